@@ -541,6 +541,8 @@ def run(ctx):
     r8_unpad_coverage(ctx, po)
     r9_branch_agreement(ctx, po)
     r10_complete_fill(ctx, po)
+    from rules import c05
+    c05.r1c_fresh_holders(ctx, po, rule_id='C13.R12')
 
 
 MUTANTS = [
